@@ -22,6 +22,12 @@ CHECKS = {
  "C08": dict(level="model_checking", technique="symbolic execution of the MIR of gm-zuc into z3 queries: integer lemma chain for arithmetic mod 2^31-1, bit-vector queries for the wiring, one-step induction from an arbitrary state",
              text="add31/rot31 lemmas and both LFSR modes ≡ the mathematical feedback for all register states; ZUC::new ≡ spec initialisation for all keys/IVs; from an ARBITRARY generator state every request-size sequence with total <= 4 (thorough 6, incl. zero-length requests) returns the spec words and the spec successor state, independent of stale X; S0/S1/D ground-checked; official vectors through the executor.",
              note="S-boxes and LFSR feedback uninterpreted in the wiring queries (each discharged separately); 31-bit cell invariant; composition beyond the bound by induction argument.", design="§2 C08", engine="mirsmt"),
+ "C09": dict(level="model_checking", technique="symbolic execution of the MIR of Sm9SignKey::sign and Sm9SignMasterKey::verify_sign over bit-vectors with pairing/group/hash-to-range layers as z3 uninterpreted functions; ring identity for sign-then-verify",
+             text="sign returns (h,S) with g=e(P1,Ppub-s), w=g^r, h=H2(M||w), l=(r-h) mod N != 0, S=[l]dsA for the last r drawn (retry exactly on l=0); verify_sign accepts IFF h in [1,N-1], S on the curve and H2(M||e(S,[H1(ID||01)]P2+Ppub-s)*g^h) = h, validating h and S before any group operation; no reachable assert/panic; sign-then-verify exponent identity.",
+             note="pairing bilinearity assumed in the algebra obligation (C12 caveat); Annex values in the replay reference only.", design="§2 C09", engine="mirsmt"),
+ "C10": dict(level="model_checking", technique="symbolic execution of the MIR of SM9 encrypt / decrypt / kdf / sm3_hmac / xor over bit-vectors with pairing/group layers and SM3 as z3 uninterpreted functions, one query set per length",
+             text="ciphertext = C1||C3||C2 with C1 = [r]([H1(ID||03)]P1+Ppub-e) for the last r, C2 = M xor K1, K1||K2 = KDF(C1||e(Ppub-e,P2)^r||ID,|M|+32); decrypt returns m only if C1 is on the curve, m = C2 xor K1 and C3 matches in all 32 bytes, for ciphertext lengths listed (incl. <98 and >352 bytes: error, no panic). KNOWN FINDING: C3 is HMAC-SM3(K2,C2), not the standard's Hv(C2||K2).",
+             note="layers uninterpreted; message lengths listed in evidence (1,2,32,33,255 quick); MAC deviation recorded in known_findings.json.", design="§2 C10", engine="mirsmt"),
  "C11": dict(level="model_checking", technique="layered symbolic execution of the MIR of gm-sm2 into z3: limbs (free partial products), big integers (Montgomery witness), abstract field (group-law case analysis), exponent tracking; ground check of all 8160 table entries",
              text="u256/u512 limb arithmetic exact; Montgomery multiplication mod p and mod n, fp/fn add/sub/neg/double/triple exact and canonical for all operands; point_add/point_dbl/neg/to_affine/is_valid implement the group law for every Jacobian representation incl. P=Q, P=-Q, infinity; fp_inv/fp_sqrt/fn_pow exponents; every fixed-base table entry equals its multiple of G; constants recomputed.",
              note="summaries at layer k+1 are the statements proved at layer k; reals as generic field at L3; scalar-multiplication loops (L4) only as listed in evidence.", design="§2 C11", engine="mirsmt"),
